@@ -45,6 +45,6 @@ def queries(tier):
     return qs
 
 MANIFEST = {
-    "text": "Bounded symbolic check of the real bus.c: every event skeleton up to the stated length from sock_init through the real entry points; monitor: send completes at once with success in every state (also non-blocking), each connected peer is offered the message at most once and exactly once when it has room, the pipe named in a raw header is skipped, nothing received is ever sent on, receives are unique, ordered per peer and carry the arrival pipe in raw mode. One slow peer (full per-peer queue) never deprives later peers; waiting receives are served in posting order.",
+    "text": "Bounded symbolic check of the real bus.c: every event skeleton up to the stated length from sock_init through the real entry points; monitor: send completes at once with success in every state (also non-blocking), each connected peer is offered the message at most once and exactly once when it has room, the pipe named in a raw header is skipped, nothing received is ever sent on, receives are unique, ordered per peer and carry the arrival pipe in raw mode. One slow peer (full per-peer queue) never deprives later peers; waiting receives are served in posting order. Also NNG_OPT_RECVBUF changed while messages are buffered and the ring has wrapped (arrival order kept).",
     "note": "aio framework and messages are verified models; events are atomic (no preemption).",
 }
